@@ -74,8 +74,13 @@ class PeerBase:
         return rc.split_tcp_stream(buf)
 
     # -- sending helpers --------------------------------------------------------------------------
-    def send(self, s, data: bytes, delay: float = 0.0, n: int = 0, piece: int = 0):
-        def go():
+    def send(self, s, data: bytes, delay: float = 0.0, n: int = 0, piece: int = 0, hops: int = 0):
+        """send `data` after `delay` virtual seconds and `hops` further loop iterations (arrival phase relative to the
+        client's own callbacks in the same instant is arbitrary on a real network, so scenarios may sweep it)"""
+        def go(h=hops):
+            if h > 0:
+                self.loop.call_soon(go, h - 1)
+                return
             if s.fileno() == -1:
                 self.loop.ev("psend_lost", self.owner, n, piece)
                 return
@@ -242,6 +247,15 @@ class ScriptedPeer(PeerBase):
             if e is not None:
                 self.send(s, e, args[1], n, 2)
             return
+        if name == "nowbad":            # valid answer now, then a corrupted copy after a delay (arrives while the socket is idle)
+            keep.append(v)
+            self.send(s, v, 0, n, 1)
+            b = bytearray(v)
+            if self.framing == "tcp":
+                b[8] ^= 0x02
+            else:
+                b[-1] ^= 0x55
+            return self.send(s, bytes(b), args[0], n, 2, hops=(args[1] if len(args) > 1 else 0))
         if name == "badsumlate":        # a corrupted answer after a delay (default half a timeout)
             b = bytearray(v)
             if self.framing == "tcp":
